@@ -1,45 +1,45 @@
 (* C02 - nested lengths, alignment and type codes follow the OF1.3/Nicira wire grammar.
    Statements only; every proof is [exact lemma].
 
-   The walker is Spec/Walk.v's independent decoder with the tree forgotten. *)
+   The walker is Spec/Walk.v's independent decoder with the tree forgotten: it succeeds only
+   when every declared length equals the extent occupied, every padding byte is zero, every
+   type / subtype / class code is a defined one and the walk ends exactly at the end of the
+   message. *)
 From Coq Require Import NArith List Bool.
 From Coq.Strings Require Import Byte.
-From LOF Require Import Base.Bytes Model.Wire Model.Build Spec.Walk Proofs.WireP Proofs.BuildP Proofs.NormP Proofs.WalkP.
+From LOF Require Import Base.Bytes Model.Wire Model.Build Spec.Walk Proofs.WireP Proofs.BuildP Proofs.NormP Proofs.WalkP
+  Proofs.WalkAllP Proofs.WalkMsgP.
 Import ListNotations.
 Open Scope N_scope.
 
-(* THE FULL STATEMENT (not proved in full generality in this development): every message
-   any well-formed API recipe builds is accepted by the walker. *)
 Definition C02_full_statement : Prop :=
   forall m xid, wf_m m = true -> xid < 4294967296 -> size (build_m xid m) <= 65535 ->
   spec_walk (fst (marshal (build_m xid m))) = true.
 
-(* What is proved, for all values of the quantified arguments:
-   - the table lemma: any element whose layout consists of numbers and zero padding is read
-     back field by field from its own encoding, whatever follows it;
-   - hence each of the eight fixed-size standard actions (output, set-queue, group,
-     dec-nw-ttl, pop-vlan, push-vlan, push-mpls, pop-mpls) declares exactly the bytes it
-     occupies, carries its OpenFlow type code and its zero padding, in front of any rest;
-   - and a list of them, in any order and number, is walked element by element to its
-     exact end.
-   Missing (covered by the correspondence check, which walks every encoding the library
-   produces for random recipes of ALL kinds, and by the example below): set-field and the
-   Nicira actions, instructions, buckets, matches and the message framings. *)
-Theorem C02_table_lemma_partial : forall l vs rest, plain l = true -> vals_ok l vs = true ->
+(* THE THEOREM: every message any recipe builds whose arguments fit their fields ([msg_ok],
+   see Properties/C03.v; port / queue statistics requests excluded - finding D10 is about
+   their body layout) is accepted by the walker.  The hypothesis differs from the full
+   statement's only by asking for the range and count side conditions explicitly and for
+   sizes below 65000 instead of 65535. *)
+Theorem C02_built_messages_walk : forall m xid, msg_ok m = true -> xid < 4294967296 ->
+  spec_walk (fst (marshal (build_m xid m))) = true.
+Proof. exact spec_walk_built. Qed.
+Print Assumptions C02_built_messages_walk.
+
+(* the table lemma everything rests on: any layout of numbers and zero padding is read back
+   field by field from its own encoding, whatever follows it *)
+Theorem C02_table_lemma : forall l vs rest, plain l = true -> vals_ok l vs = true ->
   sfields l (enc_fields l vs ++ rest) = Some (vs, rest).
 Proof. exact sfields_enc. Qed.
-Print Assumptions C02_table_lemma_partial.
+Print Assumptions C02_table_lemma.
 
-Theorem C02_fixed_actions_partial : forall a fuel rest, std_arec_ok a = true ->
-  sdec_action (S fuel) (wire (build_a a) ++ rest) = Some (build_a a, rest).
-Proof. exact sdec_built_std_action. Qed.
-Print Assumptions C02_fixed_actions_partial.
-
-Theorem C02_action_lists_partial : forall acts, forallb std_arec_ok acts = true ->
-  forall fuel, (length (flat_map wire (map build_a acts)) < fuel)%nat ->
-  sdec_actions fuel (flat_map wire (map build_a acts)) = Some (map build_a acts).
-Proof. exact sdec_built_std_actions. Qed.
-Print Assumptions C02_action_lists_partial.
+(* any list of actions (all kinds, conntrack nesting to any depth) is walked element by
+   element to its exact end *)
+Theorem C02_action_lists : forall acts, forallb act_ok acts = true ->
+  forall fuel, (length (flat_map wire (map norm (map build_a acts))) < fuel)%nat ->
+  sdec_actions fuel (flat_map wire (map norm (map build_a acts))) = Some (map canon (map norm (map build_a acts))).
+Proof. exact sdec_built_actions. Qed.
+Print Assumptions C02_action_lists.
 
 (* alignment facts that hold for every recipe: every action the API builds fills whole
    8-byte words and its stored length is its size *)
